@@ -61,7 +61,12 @@ func setScalar(fv reflect.Value, kind, t string) {
 		fv.SetString(t)
 	case "um":
 		fv.Set(reflect.ValueOf(UM{V: t}))
-	case "int", "int8", "int16", "int32", "int64", "duration":
+	case "uptr":
+		if t != "" {
+			tt := t
+			fv.Set(reflect.ValueOf(UPtr{p: &tt}))
+		}
+	case "int", "int8", "int16", "int32", "int64", "duration", "level":
 		n, err := strconv.ParseInt(t, 10, 64)
 		if err != nil && t != "" {
 			panic("harness: bad int text " + t)
@@ -151,6 +156,12 @@ func dumpValue(v reflect.Value) string {
 		if u, ok := v.Interface().(UM); ok {
 			return "UM(" + strconv.Quote(u.V) + ")"
 		}
+		if u, ok := v.Interface().(UPtr); ok {
+			if u.p == nil {
+				return "UPtr(nil)"
+			}
+			return "UPtr(" + strconv.Quote(*u.p) + ")"
+		}
 		return fmt.Sprintf("%#v", v.Interface())
 	case reflect.Func:
 		return "func"
@@ -188,6 +199,10 @@ func genPlainText(r *Rng, kind string) string {
 	switch baseKind(kind) {
 	case "bool":
 		return r.Pick([]string{"true", "false"})
+	case "level":
+		return strconv.Itoa(r.Range(0, 5))
+	case "uptr":
+		return "up" + r.Pick(plainWords)
 	case "int", "int16", "int32", "int64":
 		return strconv.Itoa(r.Range(-40, 120))
 	case "int8":
@@ -218,8 +233,10 @@ func plainToV(kind, text string) (V, error) {
 			return V{}, err
 		}
 		return V{T: BStr(strconv.FormatBool(b))}, nil
-	case "int", "int8", "int16", "int32", "int64":
-		bits := map[string]int{"int": 64, "int8": 8, "int16": 16, "int32": 32, "int64": 64}[kind]
+	case "uptr":
+		return V{T: BStr(text)}, nil
+	case "int", "int8", "int16", "int32", "int64", "level":
+		bits := map[string]int{"int": 64, "int8": 8, "int16": 16, "int32": 32, "int64": 64, "level": 64}[kind]
 		n, err := strconv.ParseInt(text, 10, bits)
 		if err != nil {
 			return V{}, err
@@ -296,6 +313,9 @@ func genNastyString(r *Rng) string {
 			"make -j4 # parallel", "issue #12", "a ; b", "a#b", "x\t; y", "http://10.0.0.1:8080/v1", "k:v:w", ":", "::", "a: b", "x = y ; z"})
 	case 11:
 		n := r.Pick([]string{"4090", "4095", "4096", "4097", "5000", "8192", "65530", "65536", "70000"})
+		if r.Chance(1, 60) {
+			n = r.Pick([]string{"1048570", "1048576", "1200000", "2100000"}) // beyond a megabyte, rarely (cost)
+		}
 		nn, _ := strconv.Atoi(n)
 		return strings.Repeat(r.Pick([]string{"x", "ab", "é"}), nn)[:nn]
 	case 12:
@@ -313,6 +333,10 @@ func genStoreScalar(r *Rng, kind string, nasty bool) V {
 		if nasty {
 			return V{T: BStr(genNastyString(r))}
 		}
+		return V{T: BStr(r.Pick(plainWords))}
+	case "level":
+		return V{T: BStr(strconv.Itoa(r.Range(0, 6)))}
+	case "uptr":
 		return V{T: BStr(r.Pick(plainWords))}
 	case "int", "int64", "duration":
 		return V{T: BStr(strconv.FormatInt(pickInt(r, 64), 10))}
